@@ -813,6 +813,8 @@ static int vi_delete(int r1, int o1, int r2, int o2, int lnmode)
 	}
 	xrow = r1;
 	xoff = lnmode ? lbuf_indents(xb, xrow) : o1;
+	if (xrow >= lbuf_len(xb))	/* as vi_wfix() will; the rows are drawn before it */
+		xrow = MAX(0, lbuf_len(xb) - 1);
 	free(pref);
 	free(post);
 	vi_drawfix(r1, r2, !lnmode, 0);
